@@ -178,6 +178,9 @@ package compactindex
 //@   ensures result1 == nil ==> forall j int :: 0 <= j && j < 8 ==> byte(result0.Hash >> (8*uint(j))) == ite(j < 3, fbyte(b.Entries, i*int(b.Stride)+j), 0)
 //@   ensures result1 == nil ==> forall j int :: 0 <= j && j < 8 ==> byte(result0.Value >> (8*uint(j))) == ite(j < int(b.OffsetWidth), fbyte(b.Entries, i*int(b.Stride)+3+j), 0)
 //@   ensures result1 != nil ==> result1 != ErrNotFound
+//@   # C04 (every inserted key is found): an entry whose bytes the reader delivers in full is returned, whatever error
+//@   # accompanies the full read (io.ReaderAt may return len(p), io.EOF at the end of the source)
+//@   ensures readfull(b.Entries, i*int(b.Stride), int(b.Stride)) ==> result1 == nil
 
 // The getter handed to searchEytzinger is b.loadEntry, called for indices below NumEntries: its preconditions are
 // required here (vcgo does not check the contract of a method value passed as a function argument).
